@@ -180,8 +180,30 @@ def zl(v):
     return str(v) if v >= 0 else "(%d)" % v
 
 
+def broken_tie_theorems(chk):
+    """tie theorems (of any owning property) that no longer check, by name: the lemma of coq/*/C<nn>TieProofs.v that
+    contains the line of coqc's error in this run's build log"""
+    out = []
+    log = os.path.join(common.BUILD, "coq_make.log")
+    if not os.path.exists(log):
+        return out
+    for f, ln in re.findall(r'File "\./([A-Za-z]+/C\d\dTieProofs\.v)", line (\d+)', open(log, errors="replace").read()):
+        name, src = None, os.path.join(common.COQ, f)
+        if os.path.exists(src):
+            for i, line in enumerate(open(src), 1):
+                m = re.match(r"\s*(?:Lemma|Theorem)\s+([A-Za-z0-9_']+?)(_lemma)?\s*:", line)
+                if m and i <= int(ln):
+                    name = m.group(1)
+        item = {"file": f, "line": int(ln), "theorem": name}
+        if item not in out:
+            out.append(item)
+    return out
+
+
 def run_part(chk):
     quick = chk.tier == "quick"
+    broken = broken_tie_theorems(chk)
+    chk.cov["parts"].setdefault("leaf-translation", {"evaluations": 0, "distinct_nontrivial": 0})["undischarged_tie_theorems"] = broken
     mp = os.path.join(common.BUILD, "gen", "leaf_meta.json")
     leaf_vo = os.path.join(common.COQ, "Gen", "Leaf.vo")
     if not os.path.exists(mp):
